@@ -6,7 +6,7 @@ import Uquic.Proofs.FieldsWriter3
 namespace Uquic.Proofs.Fields
 open Uquic.Model.H3.Fields Uquic.Model.H3.Writer Uquic.Gen.H3Fields
 open Uquic.Spec.H3Fields (isPseudoName lowerTchar fieldValueByte isDigitByte connectionSpecific allowedPseudo
-  fieldSize sectionSize WellFormedG WellFormed)
+  fieldSize sectionSize WellFormed)
 
 /-- a response header map of a valid net/http message, as the theorem needs it; `clv` is the (single)
     Content-Length value if there is one -/
@@ -15,29 +15,28 @@ structure ValidResponse (st : Int) (hs : List (List Nat × List (List Nat))) (cl
   status : 100 ≤ st ∧ st ≤ 999
   fields : ∀ kv ∈ hs, trailerPrefix.isPrefixOf kv.1 = false →
     validFieldName kv.1 = true ∧ ∀ v ∈ kv.2, validFieldValue v = true
-  /-- NOT enforced by the writer (finding C19-response-connection-specific) -/
-  noconn : ∀ kv ∈ hs, lowerASCII kv.1 ∉ connectionSpecific
-  /-- NOT enforced by the writer (same finding) -/
-  te : ∀ kv ∈ hs, lowerASCII kv.1 = nTe → ∀ v ∈ kv.2, v = vTrailers
   cl : ∀ kv ∈ hs, lowerASCII kv.1 = nContentLength → ∀ v ∈ kv.2, v = clv
   clv : clv ≠ [] ∧ (∀ b ∈ clv, isDigitByte b = true) ∧ decVal clv < 2 ^ 63
 
 theorem responseRegular_mem (hs : List (List Nat × List (List Nat))) (f : Field) (hf : f ∈ responseRegular hs) :
-    ∃ kv ∈ hs, trailerPrefix.isPrefixOf kv.1 = false ∧ f.1 = lowerASCII kv.1 ∧ f.2 ∈ kv.2 := by
+    ∃ kv ∈ hs, trailerPrefix.isPrefixOf kv.1 = false ∧ f.1 = lowerASCII kv.1 ∧ f.2 ∈ kv.2 ∧
+      lowerASCII kv.1 ∉ invalidHeaderFields ∧ (lowerASCII kv.1 = nTe → f.2 = vTrailers) := by
   simp only [responseRegular, List.mem_flatMap] at hf
   obtain ⟨kv, hkv, hf⟩ := hf
   split at hf
   · simp at hf
   rename_i hc
   simp only [Bool.or_eq_true, not_or, Bool.not_eq_true] at hc
-  simp only [List.mem_map] at hf
-  obtain ⟨v, hv, rfl⟩ := hf
-  exact ⟨kv, hkv, hc.2, rfl, hv⟩
+  simp only [List.mem_map, List.mem_filter] at hf
+  obtain ⟨v, ⟨hv, hkeep⟩, rfl⟩ := hf
+  refine ⟨kv, hkv, hc.1.2, rfl, hv, by simpa using hc.2, ?_⟩
+  intro hte
+  simpa [hte] using hkeep
 
 theorem responseRegular_ok (st : Int) (hs : List (List Nat × List (List Nat))) (clv : List Nat)
     (hv : ValidResponse st hs clv) : ∀ f ∈ responseRegular hs, RegOK f ∨ (f.1 = nContentLength ∧ f.2 = clv) := by
   intro f hf
-  obtain ⟨kv, hkv, hnp, h1, h2⟩ := responseRegular_mem hs f hf
+  obtain ⟨kv, hkv, hnp, h1, h2, h3, h4⟩ := responseRegular_mem hs f hf
   obtain ⟨hname, hvals⟩ := hv.fields kv hkv hnp
   obtain ⟨hne, htok⟩ := lowerASCII_tokens kv.1 hname
   by_cases hcl : lowerASCII kv.1 = nContentLength
@@ -48,8 +47,8 @@ theorem responseRegular_ok (st : Int) (hs : List (List Nat × List (List Nat))) 
     · rw [h1]; exact hne
     · rw [h1]; exact htok
     · exact value_bytes_of_valid _ (hvals f.2 h2)
-    · rw [h1]; exact hv.noconn kv hkv
-    · intro hte; exact hv.te kv hkv (h1 ▸ hte) f.2 h2
+    · rw [h1]; exact fun hc => h3 (connectionSpecific_sub _ hc)
+    · intro hte; exact h4 (h1 ▸ hte)
     · rw [h1]; exact hcl
 
 theorem signSplit_digits (s : List Nat) (h : s.all isDigit = true) : signSplit s = (false, s) := by
@@ -98,8 +97,7 @@ theorem response_agree (ext : List Nat → Bool) (st : Int) (hs : List (List Nat
     · rcases hR f hf with h | ⟨_, h⟩
       · exact absurd hn h.2.2.2.2.2.2
       · rw [h]; exact hv.clv.2.2
-  obtain ⟨h, hp⟩ := accept_complete_of_wf ext false lim _
-    { wf with cl_numeric := fun f hf hn => ⟨Or.inr rfl, (wf.cl_numeric f hf hn).2⟩ } hfit
+  obtain ⟨h, hp⟩ := accept_complete_of_wf ext false lim _ wf hfit
   refine ⟨wf, ?_⟩
   obtain ⟨_, _, _, _, _, vst⟩ := parse_pseudo_values ext false lim _ false h hp
   have hstatus : h.status = fmtNat st.toNat := by
